@@ -286,19 +286,25 @@ fn check_offset(d: &DocCx<'_>, index: &JsonIndex, si: usize, o: usize, st: &mut 
                 other => (false, json!({"same_path_with_offending_keys_bracketed": alt, "evaluates_correctly": false, "result": format!("{:?}", other.map(|(a, _)| to_compact(&a)))})),
             }
         };
+        // (both shapes can occur on one path: when bracketing only one kind of key is
+        // not enough because the other open shape is on the path too, both kinds are
+        // bracketed; the signature follows the manifestation)
+        let both = |k: &str| is_keyword(k) || !k.is_ascii();
+        let has_non_ascii = segs.iter().any(|s| matches!(s, Seg::Key(k) if !k.is_ascii()));
         if kind != "parser-panic" && !kw_on_path.is_empty() {
             let (mut ok, mut note) = try_alt(&|k| is_keyword(k));
-            if !ok && note["result"].as_str().map_or(false, |r| r.contains("is not a char boundary")) {
-                // the re-written path ran into the other open finding (`]` `.` non-ASCII):
-                // bracket those keys as well
-                (ok, note) = try_alt(&|k| is_keyword(k) || !k.is_ascii());
+            if !ok && has_non_ascii {
+                (ok, note) = try_alt(&both);
             }
             if ok {
                 sig = OPEN_SHAPES[0].to_string();
             }
             alt_note = note;
         } else if kind == "parser-panic" && msg.contains("is not a char boundary") && non_ascii_dot_after_bracket(&res.expression) {
-            let (ok, note) = try_alt(&|k| !k.is_ascii());
+            let (mut ok, mut note) = try_alt(&|k| !k.is_ascii());
+            if !ok && !kw_on_path.is_empty() {
+                (ok, note) = try_alt(&both);
+            }
             if ok {
                 sig = OPEN_SHAPES[1].to_string();
             }
@@ -452,14 +458,6 @@ fn replay_input(v: &Value) -> Option<Fail> {
 }
 
 pub fn run(cx: &mut Ctx) {
-    if let Ok(list) = std::env::var("VH_PROBE_C28") {
-        // development aid: parse each expression (separated by |||) and print the outcome
-        for e in list.split("|||") {
-            let r = catch(|| jq::parse(e).map(|_| ()).map_err(|e| format!("{} @{}", e.message, e.position)));
-            println!("PROBE {:?} -> {:?}", e, r);
-        }
-        return;
-    }
     cx.assume("expected values and spans come from the G-json model and the renderer's span table; results are read back through StandardJson navigation (checked by C06) or OwnedValue");
     cx.assume("library level only: locate_offset_detailed + jq::parse + eval_generic::eval_with_cursor + jq::eval; the CLI layer (`succinctly jq-locate`, `succinctly jq`) is sampled separately");
     cx.assume("numbers are compared as doubles");
@@ -474,7 +472,7 @@ pub fn run(cx: &mut Ctx) {
     cx.check(
         "locate-eval",
         RULE,
-        Budget { quick: 12_000, thorough: 400_000, max_len: 6000 },
+        Budget { quick: 60_000, thorough: 1_500_000, max_len: 6000 },
         |u, st| {
             let (j, r, ro) = gen_doc(u);
             let text = &r.text;
